@@ -59,10 +59,13 @@ def _sha(b):
 class Fixture:
     """All concrete contents, built once per process (deterministic, seed independent)."""
 
-    def __init__(self, base):
+    def __init__(self, base, eol="\n"):
+        """eol: line terminator of the documents, "\n" or "\r\n" (a bare "\r" is outside the domain: the text-mode table
+        builder counts it as a line end, the mmap reader does not)."""
         import zstandard
 
         self.base = base
+        self.eol = eol
         os.makedirs(base, exist_ok=True)
         rnd = random.Random(1414)
         alnum = "abcdefghijklmnopqrstuvwxyzABCDEFGHIJKLMNOPQRSTUVWXYZ0123456789"
@@ -71,13 +74,13 @@ class Fixture:
             # multi-byte characters in the first lines and in the lines before every table entry (a table that counted
             # characters instead of bytes would be off); nowhere else, so that no chunked writer cuts inside one
             mb = "ä€"[: i % 3] if (i <= 20 or 0 < (-i) % 50000 <= 40 or i % 50000 == 0) else ""
-            lines.append(('{"i":%d,"s":"%s"}\n' % (i, mb + "x" * (i % 11))).encode("utf-8"))
+            lines.append(('{"i":%d,"s":"%s"}%s' % (i, mb + "x" * (i % 11), eol)).encode("utf-8"))
         blob = "".join(rnd.choice(alnum) for _ in range(LAST_LINE_BODY))
-        lines.append(('{"i":%d,"blob":"%s"}\n' % (N_LINES, blob)).encode("utf-8"))
+        lines.append(('{"i":%d,"blob":"%s"}%s' % (N_LINES, blob, eol)).encode("utf-8"))
         self.X = b"".join(lines)
         self.x_off = self._offsets(lines)
         self.last_start = self.x_off[N_LINES - 1]
-        olines = [('{"k":"%s","n":%d}\n' % ("o" * (i % 17), i * 7)).encode("utf-8") for i in range(1, N_OTHER + 1)]
+        olines = [('{"k":"%s","n":%d}%s' % ("o" * (i % 17), i * 7, eol)).encode("utf-8") for i in range(1, N_OTHER + 1)]
         self.other = b"".join(olines)
         self.o_off = self._offsets(olines)
         # documents of the partial classes used as INITIAL states / short bodies
